@@ -6,6 +6,7 @@ from framework import run_check, setup_repo_path
 import syscheck
 
 if __name__ == "__main__":
+    import gentie
     setup_repo_path()
     sys.exit(run_check(
         "C02", lean_modules=["Pamiq.Props.C02", "Pamiq.Props.C02Live", "Pamiq.Props.C02Term"],
@@ -14,7 +15,7 @@ if __name__ == "__main__":
                            "Pamiq.Proto.ctl_releases_lock_when_unwound", "Pamiq.Proto.launch_epilogue_never_blocks", "Pamiq.Proto.shutdown_stable",
                            "Pamiq.Proto.never_started_is_final", "Pamiq.Proto.joined_is_settled", "Pamiq.Proto.drain_threads",
                            "Pamiq.Proto.can_always_return", "Pamiq.Proto.no_deadlock"],
-        suites=[syscheck.suite_fakes] + syscheck.make_suites("C02", [('C02', 300, 8000), ('any', 80, 2000)],
+        suites=[gentie.suite_for("C02"), syscheck.suite_fakes] + syscheck.make_suites("C02", [('C02', 300, 8000), ('any', 80, 2000)],
             "random scenarios (0-2 trainers, child agent, 1-3 attempts, queue 1-3, web commands incl. "
             "pause/resume/save/status/invalid, save condition, faults at every callback kind, interrupts, "
             "timed mode) x seeded random schedules of the real launch(); each trace replayed through "
